@@ -701,46 +701,44 @@ def _legacy(run, repo, world, folder):
     run.rule("R-WIRE-LEGACY", "legacy drivers: construct() <-> documented "
              "layout <-> extract() internal consistency; unsupported frame "
              "lengths refused")
-    # legacy Tridonic
+    # legacy Tridonic: the packet by evaluation of construct(), the reports
+    # extract() reads as frames by its path formulas over the report bytes
     mod = repo.mod(LTRI)
+    from ..wireval import WireEval, CmdObj, SelfObj, Sym
+    tsp = _spec("hid.json")["tridonic_legacy"]
+    tc = world.cls(LTRI + ".TridonicDALIUSBDriver")
     o, fn = _m(world, LTRI + ".TridonicDALIUSBDriver", "construct")
-    packs = [c for c in call_sites(fn) if unparse(c.func) == "struct.pack"]
-    ok = len(packs) == 1
-    if ok:
-        fmt = folder.eval(packs[0].args[0], {}, LTRI)
-        fields = [unparse(a) for a in packs[0].args[1:]]
-        ok = isinstance(fmt, str) and struct.calcsize(fmt) == 64 and \
-            fields == ["dr", "sn", "0", "ty", "0", "ec", "ad", "cm"]
-    consts = {k: folder.eval(ast.parse(k, mode="eval").body, {}, LTRI)
-              for k in ("DALI_USB_DIRECTION_USB", "DALI_USB_TYPE_16BIT",
-                        "DALI_USB_TYPE_24BIT", "DALI_USB_DIRECTION_DALI",
-                        "DALI_USB_TYPE_NO_RESPONSE", "DALI_USB_TYPE_RESPONSE",
-                        "DALI_USB_TYPE_COMPLETE")}
-    run.ob("R-WIRE-LEGACY", LTRI + ".TridonicDALIUSBDriver.construct", ok and
-           consts["DALI_USB_DIRECTION_USB"] == 0x12 and
-           consts["DALI_USB_TYPE_16BIT"] == 0x03,
-           "64-byte packet with dr=0x12, sn, 0, ty=0x03, 0, ec, ad, cm at "
-           "offsets 0,1,3,5,6,7 expected (constants %s)" % consts,
+    okc = True
+    detail = ""
+    for nbu in (1, 2, 3, 4):
+        for tw in (False, True):
+            case = {"nbytes": nbu, "nbits": 8 * nbu, "sendtwice": tw,
+                    "response": None}
+            r = WireEval(world, folder, tc, case).run(
+                fn, {"self": SelfObj(tc), "command": CmdObj(case)})
+            if nbu != 2:
+                run.ob("R-WIRE-LEGACY", LTRI + ".TridonicDALIUSBDriver."
+                       "construct#refusal", r[0] == "raise",
+                       "a %d-bit frame must be refused (ValueError), got %r"
+                       % (8 * nbu, r), where(mod, fn), trivial=True)
+                continue
+            got = list(r[1]) if r[0] == "return" and isinstance(
+                r[1], (list, tuple, bytes)) else None
+            want = [tsp["out"]["direction"], None, 0,
+                    tsp["out"]["type_16bit"], 0, 0, Sym("b0"), Sym("b1")] + \
+                [0] * (tsp["packet_size"] - 8)
+            if got is None or len(got) != len(want) or any(
+                    w is not None and g != w for g, w in zip(got, want)) \
+                    or not (type(got[1]) is int and 1 <= got[1] <= 255):
+                okc = False
+                detail = "for sendtwice=%s the packet starts %r" % (
+                    tw, got[:10] if got else r)
+    run.ob("R-WIRE-LEGACY", LTRI + ".TridonicDALIUSBDriver.construct", okc,
+           "64-byte packet with dr=0x12, sn, 0, ty=0x03, 0, ec=0, ad, cm at "
+           "offsets 0..7 expected; %s" % detail,
            where(mod, fn), sample={"rule": "R-WIRE-LEGACY",
-                                   "driver": "tridonic (legacy)",
-                                   "constants": consts})
-    from .. import astq
-    run.ob("R-WIRE-LEGACY", LTRI + ".TridonicDALIUSBDriver.construct#refusal",
-           len(astq.raises(fn, "ValueError")) >= 2,
-           "unsupported frame lengths (24 bit, anything but 16) must be "
-           "refused with ValueError", where(mod, fn))
-    o, efn = _m(world, LTRI + ".TridonicDALIUSBDriver", "extract")
-    asg = {unparse(n.targets[0]): unparse(n.value) for n in ast.walk(efn)
-           if isinstance(n, ast.Assign)}
-    run.ob("R-WIRE-LEGACY", LTRI + ".TridonicDALIUSBDriver.extract#offsets",
-           asg.get("dr") == "data[0]" and asg.get("ty") == "data[1]" and
-           asg.get("ec") == "data[3]" and asg.get("ad") == "data[4]" and
-           asg.get("cm") == "data[5]" and asg.get("sn") == "data[8]" and
-           consts["DALI_USB_TYPE_NO_RESPONSE"] == 0x71 and
-           consts["DALI_USB_TYPE_RESPONSE"] == 0x72 and
-           consts["DALI_USB_TYPE_COMPLETE"] == 0x73,
-           "extract() offsets/codes must follow the documented layout "
-           "dr ty ?? ec ad cm st st sn", where(mod, efn))
+                                   "driver": "tridonic (legacy)"})
+    _legacy_tridonic_extract(run, repo, world, folder, tc, tsp)
     # legacy hasseb
     mod = repo.mod(LHAS)
     c = [k for k in world.classes_in(LHAS) if "construct" in k.methods]
@@ -811,6 +809,120 @@ def _legacy(run, repo, world, folder):
     run.ob("R-WIRE-LEGACY", UNI + ".UnipiDALIDriver.construct", okq,
            "register pair (options | address, command bytes) per frame "
            "size and send-twice flag; %s" % detail, where(mod, fn))
+
+
+def _legacy_tridonic_extract(run, repo, world, folder, c, tsp):
+    """Which reports the legacy Tridonic driver reads as a forward frame, a
+    backward frame or 'no response': the returning paths of extract() as
+    formulas over the report's bytes (module constants folded, locals
+    substituted), compared with the documented layout."""
+    from .. import paths, pred
+    from ..normal import normalise
+    mod = repo.mod(LTRI)
+    if "extract" not in c.methods:
+        raise AnalysisError("legacy Tridonic extract vanished")
+    fn = normalise(c.methods["extract"][1], world, LTRI, c, aliases="params")
+    Q = c.qname + ".extract"
+    data = fn.args.args[1].arg
+    sp = tsp["in"]
+
+    def lin(e):
+        if isinstance(e, ast.Constant) and type(e.value) is int:
+            return pred.Lin.const(e.value)
+        if isinstance(e, ast.Subscript) and unparse(e.value) == data and \
+                isinstance(e.slice, ast.Constant) and type(
+                    e.slice.value) is int:
+            return pred.Lin.sym("d%d" % e.slice.value)
+        if isinstance(e, ast.Name):
+            v = folder.eval(e, {}, LTRI)
+            if type(v) is int:
+                return pred.Lin.const(v)
+        return None
+    P = pred.Parser(lin)
+
+    def tree(t):
+        try:
+            return P.tree(t)
+        except pred.Unrecognised:
+            return ("atom", ("p", unparse(t, 200), True))
+    try:
+        ps = paths.summaries(fn)
+    except paths.Unsupported as e:
+        raise AnalysisError("%s is not loop-free: %s" % (Q, e))
+
+    def region(sel_):
+        ds = []
+        for p_ in ps:
+            if sel_(p_):
+                trees = []
+                for (tst, b) in p_.conds:
+                    tr = tree(tst)
+                    trees.append(tr if b else ("not", tr))
+                d_ = pred.dnf(("and", trees))
+                ds.append(frozenset(frozenset(
+                    a for a in cj if a[0] == "le") for cj in d_))
+        return pred.union(*ds) if ds else frozenset()
+
+    def kind(p_):
+        if p_.kind == "fall":
+            return "none"
+        if p_.kind != "return":
+            return p_.kind
+        e = p_.expr
+        if e is None or (isinstance(e, ast.Constant) and e.value is None):
+            return "none"
+        if isinstance(e, ast.Call):
+            k = world.resolve_class(LTRI, e.func)
+            return k.name if k is not None else "other"
+        if isinstance(e, ast.Name) and e.id == "DALI_USB_NO_RESPONSE":
+            return "noresp"
+        return "other"
+
+    def f(src):
+        return P.dnf(ast.parse(src, mode="eval").body)
+    D = data
+    do, to = sp["direction_offset"], sp["type_offset"]
+    want = {
+        "ForwardFrame": f("%s[%d] == %d and (%s[%d] == %d or %s[%d] == %d)" % (
+            D, do, sp["dir_dali"], D, to, sp["type_complete"],
+            D, to, sp["type_broadcast"])),
+        "BackwardFrame": f("%s[%d] == %d and %s[%d] == %d" % (
+            D, do, sp["dir_usb"], D, to, sp["type_response"])),
+        "noresp": f("%s[%d] == %d and %s[%d] == %d" % (
+            D, do, sp["dir_usb"], D, to, sp["type_no_response"])),
+    }
+    run.ob("R-WIRE-LEGACY", Q + "#outcomes",
+           {kind(p_) for p_ in ps} <= {"none", "ForwardFrame",
+                                       "BackwardFrame", "noresp"},
+           "extract() can end in %s; a report is a forward frame, a backward "
+           "frame, 'no response' or nothing" % sorted(
+               {kind(p_) for p_ in ps}), where(mod, fn))
+    for k_, w_ in want.items():
+        got = region(lambda p_, k_=k_: kind(p_) == k_)
+        eq, _ = pred.equivalent(got, w_)
+        run.ob("R-WIRE-LEGACY", Q + "#" + k_, eq,
+               "a report is read as %s when `%s`; the documented layout "
+               "(direction byte %d, type byte %d) says `%s`" % (
+                   k_, pred.show(got), do, to, pred.show(w_)),
+               where(mod, fn),
+               sample={"rule": "R-WIRE-LEGACY", "outcome": k_,
+                       "when": pred.show(got)})
+    ad = "%s[%d]" % (D, sp["address_offset"])
+    cm = "%s[%d]" % (D, sp["command_offset"])
+    okargs = True
+    seen = 0
+    for p_ in ps:
+        if kind(p_) == "ForwardFrame":
+            seen += 1
+            a_ = [unparse(x) for x in p_.expr.args]
+            okargs = okargs and a_ == ["16", "[%s, %s]" % (ad, cm)]
+        elif kind(p_) == "BackwardFrame":
+            seen += 1
+            okargs = okargs and [unparse(x) for x in p_.expr.args] == [cm]
+    run.ob("R-WIRE-LEGACY", Q + "#offsets", okargs and seen >= 2,
+           "the frames must be built from the documented bytes: forward "
+           "frame (16, [%s, %s]), backward frame (%s)" % (ad, cm, cm),
+           where(mod, fn))
 
 
 def _legacy_hasseb_extract(run, repo, world, folder, c):
